@@ -189,7 +189,9 @@ impl Field {
 #[derive(Clone, Debug, PartialEq, Eq, Serialize, Deserialize)]
 pub struct DefaultDecl {
     pub value: Hex,
-    /// 0: `default = <lit>`, 1: `default: <lit>` (legacy), 2: `default = NAMED_CONST`
+    /// 0: `default = <lit>`, 1: `default: <lit>` (legacy), 2: `default = NAMED_CONST`,
+    /// 3: `default = <lit>u<storage>` (suffixed), 4: `default = 1_234` (decimal with separators),
+    /// 5: `default: NAMED_CONST`
     pub form: u8,
 }
 
@@ -679,7 +681,7 @@ pub fn gen_layout(rng: &mut Rng, id: u32, o: GenOpts) -> Layout {
             1 => mask(n),
             _ => rng.next_u128() & mask(n),
         };
-        Some(DefaultDecl { value: Hex(v), form: rng.below(3) as u8 })
+        Some(DefaultDecl { value: Hex(v), form: rng.below(6) as u8 })
     } else {
         None
     };
@@ -1005,8 +1007,9 @@ pub fn gen_default_probes(rng: &mut Rng, n: u32, first_id: u32) -> Vec<Layout> {
     if is_native(n) || s <= n {
         return out;
     }
-    for k in 0..2u32 {
-        let above = if k == 0 { 1u128 << n } else { (rng.next_u128() | (1u128 << (s - 1))) & mask(s) & !mask(n) };
+    // one probe per way of writing the default (see DefaultDecl::form)
+    for k in 0..6u32 {
+        let above = if k % 2 == 0 { 1u128 << n } else { (rng.next_u128() | (1u128 << (s - 1))) & mask(s) & !mask(n) };
         let below = rng.next_u128() & mask(n);
         let mut fields = vec![fld("lo", Kind::Bool, vec![(0, 0)], None)];
         if n >= 3 {
@@ -1016,7 +1019,7 @@ pub fn gen_default_probes(rng: &mut Rng, n: u32, first_id: u32) -> Vec<Layout> {
         out.push(Layout {
             id: first_id + k,
             bits: n,
-            default: Some(DefaultDecl { value: Hex(above | below), form: (rng.below(3)) as u8 }),
+            default: Some(DefaultDecl { value: Hex(above | below), form: k as u8 }),
             fields,
             class: "D:default-has-bits-above-N".into(),
         });
